@@ -38,7 +38,7 @@ func (*c15) ID() string                      { return "C15" }
 func (*c15) Level() string                   { return "fault_enumeration" }
 func (*c15) Decode(raw []byte) (any, error) { return decodeInto[C15Scenario](raw) }
 
-var c15Alphabet = []string{"first-ok", "first-foreign", "first-trunc", "first-malformed", "final-ok", "final-other", "final-empty", "empty", "junk", "235", "535"}
+var c15Alphabet = []string{"first-ok", "first-foreign", "first-trunc", "first-malformed", "final-ok", "final-prev", "final-other", "final-empty", "empty", "junk", "235", "535"}
 
 type c15Variant struct{ mech, tls string }
 
@@ -164,8 +164,10 @@ func (p *c15) Exec(t *testing.T, scAny any) Outcome {
 			continue
 		}
 		if s.Sym == "first-ok" && s.Valid {
+			// a repeated valid server-first after the server has already proven itself does not
+			// undo that proof: the statement asks for "a nonce extending the client's nonce and
+			// afterwards the ServerSignature" within the exchange, which then has happened
 			firstValid = true
-			finalValid = false
 		}
 		if s.Sym == "final-ok" && s.Valid && firstValid {
 			finalValid = true
@@ -258,7 +260,7 @@ func (p *c15) Shrink(scAny any) []any {
 
 func (p *c15) Info() PropInfo {
 	return PropInfo{
-		Rule: "enumeration: all sequences of length 1..4 (thorough: 1..5) over the 11-symbol server alphabet {first-ok, first-foreign, first-trunc, first-malformed, final-ok, final-other, final-empty, empty, junk, 235, 535} for SCRAM-SHA-256, SCRAM-SHA-1, SCRAM-SHA-256-PLUS over TLS 1.3, SCRAM-SHA-1-PLUS over TLS 1.2 (thorough: both PLUS variants over both TLS versions); sequences that continue after 235/535 are counted as duplicates of their prefix; non-trivial = an AUTH exchange took place; distinct = distinct (mechanism, TLS version, sequence of messages actually played, outcome)",
+		Rule: "enumeration: all sequences of length 1..4 (thorough: 1..5) over the 12-symbol server alphabet {first-ok, first-foreign, first-trunc, first-malformed, final-ok, final-prev (valid for the previous, abandoned exchange), final-other, final-empty, empty, junk, 235, 535} for SCRAM-SHA-256, SCRAM-SHA-1, SCRAM-SHA-256-PLUS over TLS 1.3, SCRAM-SHA-1-PLUS over TLS 1.2 (thorough: both PLUS variants over both TLS versions); sequences that continue after 235/535 are counted as duplicates of their prefix; non-trivial = an AUTH exchange took place; distinct = distinct (mechanism, TLS version, sequence of messages actually played, outcome)",
 		Assumptions: []string{"the adversary's 'valid' messages are computed by the reference SCRAM implementation (validated on the RFC 5802/7677 vectors at start-up) from the real password; all other messages are computable without it",
 			"server-final messages are delivered as 334 challenges followed by 235, as SMTP servers do (RFC 4954 has no data in the 235 reply)"},
 		Real:        []string{"go-mail smtp.Client.Auth, scramAuth (all four variants), Client.DialWithContext, channel-binding derivation", "crypto/tls on both ends for the PLUS variants"},
